@@ -202,9 +202,11 @@ func (b *UnsafeLinkBuffer) Peek(n int) (p []byte, err error) {
 
 	// multiple nodes
 
-	// try to make use of the cap of b.cachePeek, if can't, free it.
+	// try to make use of the cap of b.cachePeek, if can't, replace it.
+	// the old block may still back a slice returned by an earlier Peek,
+	// so it is kept in b.caches and freed by Release.
 	if b.cachePeek != nil && cap(b.cachePeek) < n {
-		free(b.cachePeek)
+		b.caches = append(b.caches, b.cachePeek)
 		b.cachePeek = nil
 	}
 	if b.cachePeek == nil {
@@ -785,8 +787,10 @@ func (b *UnsafeLinkBuffer) indexByte(c byte, skip int) int {
 func (b *UnsafeLinkBuffer) recalLen(delta int) (length int) {
 	if delta < 0 && len(b.cachePeek) > 0 {
 		// b.cachePeek will contain stale data if we read out even a single byte from buffer,
-		// so we need to reset it or the next Peek call will return invalid bytes.
-		b.cachePeek = b.cachePeek[:0]
+		// so the next Peek call must not reuse it. Slices returned by earlier Peek calls
+		// stay valid until Release, so the block is kept in b.caches instead of being rewritten.
+		b.caches = append(b.caches, b.cachePeek)
+		b.cachePeek = nil
 	}
 	return int(atomic.AddInt64(&b.length, int64(delta)))
 }
